@@ -40,6 +40,8 @@ Goal_ZeroWindowLearned  == ~(\E e \in Ends : k[e].rmt_wnd = 0 /\ k[e].probe_wait
 Goal_WaskSent           == ~(CountSegs(CMD_WASK) > 0)
 Goal_WinsSent           == ~(CountSegs(CMD_WINS) > 0)
 Goal_WaskAndWinsTogether == ~(CountSegs(CMD_WASK) > 0 /\ CountSegs(CMD_WINS) > 0)
+Goal_AckWaskWinsOneFlush == ~(CountSegs(CMD_ACK) >= 1 /\ CountSegs(CMD_WASK) > 0 /\ CountSegs(CMD_WINS) > 0)   \* three reservations in one buffer
+Goal_OddAcksAndProbe    == ~(CountSegs(CMD_ACK) % 2 = 1 /\ CountSegs(CMD_WASK) + CountSegs(CMD_WINS) > 0)
 Goal_ProbeBackoff       == ~(\E e \in Ends : k[e].probe_wait > PROBE_INIT + PROBE_INIT \div 2)
 (* packing *)
 Goal_AckJitterFiltered  == ~(act.name \in {"Flush", "Deliver"} /\ CountSegs(CMD_ACK) >= 1 /\ obs.out # <<>>
@@ -49,6 +51,7 @@ Goal_AckAndPushPacked   == ~(\E i \in 1..Len(obs.out) : Len(obs.out[i].segs) >= 
                                                        /\ obs.out[i].segs[Len(obs.out[i].segs)].cmd = CMD_PUSH)
 Goal_ImmediateFlushOnInput == ~(act.name = "Deliver" /\ A.n > 0)
 Goal_AckOnlyFlushAdmits == ~(act.name = "Deliver" /\ A.n > 0 /\ CountSegs(CMD_PUSH) = 0)
+Goal_DeadLink           == ~(\E e \in Ends : k[e].state = DeadState)
 (* congestion control *)
 Goal_CwndGrowsLinear    == ~(\E e \in Ends : k[e].cwnd >= 3 /\ k[e].cwnd >= k[e].ssthresh /\ k[e].nocwnd = 0)
 Goal_CwndClampedToRmt   == ~(\E e \in Ends : k[e].cwnd = k[e].rmt_wnd /\ k[e].cwnd > 1 /\ k[e].nocwnd = 0)
